@@ -1983,6 +1983,14 @@ func ruleC06HandlerNil(cx *Ctx) {
 	}
 	exF := cx.P.Field("", "cache", "executor")
 	isHandlerLoad := func(v ssa.Value) bool {
+		// the handler may be read once into a local (spilled to a cell when a closure captures it)
+		if u, ok := v.(*ssa.UnOp); ok {
+			if al, isAl := u.X.(*ssa.Alloc); isAl {
+				if st := wholeStore(al); st != nil {
+					v = st
+				}
+			}
+		}
 		f := fieldOf(v)
 		return f != nil && handlers[f.Origin()] && ownerName(fieldOwnerOfValue(v)) == "cache"
 	}
